@@ -599,13 +599,28 @@ impl Task for ExternalEquivalenceTask {
         let right = control_translate(theory_translate(self.program));
 
         // TODO: Warn when a conflict between private predicates is encountered
-        // TODO: Check if renaming creates new conflicts
-        let right = right.rename_predicates(
-            &specification_private_predicates
-                .intersection(&program_private_predicates)
-                .map(|p| (p.clone(), "p".to_string()))
-                .collect(),
-        );
+        // A private predicate of the program that clashes with a private predicate of the
+        // specification is renamed by appending `_p`; the new name must itself be unused
+        // (e.g. `q` and `q_p` may both be private predicates of the specification).
+        let mut taken_names = public_predicates.clone();
+        taken_names.extend(specification_private_predicates.iter().cloned());
+        taken_names.extend(program_private_predicates.iter().cloned());
+        let mut renaming = IndexMap::new();
+        for predicate in specification_private_predicates.intersection(&program_private_predicates) {
+            let mut extension = "p".to_string();
+            while taken_names.contains(&fol::Predicate {
+                symbol: format!("{}_{}", predicate.symbol, extension),
+                arity: predicate.arity,
+            }) {
+                extension.push_str("_p");
+            }
+            taken_names.insert(fol::Predicate {
+                symbol: format!("{}_{}", predicate.symbol, extension),
+                arity: predicate.arity,
+            });
+            renaming.insert(predicate.clone(), extension);
+        }
+        let right = right.rename_predicates(&renaming);
 
         let mut user_guide_assumptions = Vec::new();
         for formula in self.user_guide.formulas() {
